@@ -126,13 +126,15 @@ Definition sstep_eqb (a b : sstep) : bool :=
   | _, _ => false
   end.
 
-(* the order in the code at HEAD:
+(* the order in the code BEFORE the fix 953436b:
    idm: qs.reload + reload_oauth2 (reads) ; applications/oauth2rs/... .commit() ;
    qs : set_db_ts_max ; cid.commit ; schema/d_info/.../key_providers/accesscontrols .commit() ;
    be : write_db_ruv ; idl: entries, idls, names ; db.commit ; caches .commit() ; ruv/idxmeta .commit() *)
 Definition steps_head : list cstep :=
   [St SReload; Pub PIdm; St STsMax; Pub PQs; St SRuv; St SEntries; St SIdl; St SNames; St SDbCommit; Pub PBe].
-(* the repaired order: every publication after the database commit *)
+(* the order since 953436b (the tree at HEAD): every publication after the database commit:
+   qs: set_db_ts_max ; cid ; be_txn.commit() [ruv, entries, idls, names, COMMIT, caches] ; schema..accesscontrols ;
+   idm: applications / oauth2rs / cred_update_sessions / oauth2_client_providers *)
 Definition steps_fixed : list cstep :=
   [St SReload; St STsMax; St SRuv; St SEntries; St SIdl; St SNames; St SDbCommit; Pub PBe; Pub PQs; Pub PIdm].
 
@@ -303,8 +305,9 @@ Definition agree_with (steps : list cstep) (c : case) : bool :=
   | _, None => false
   end.
 
-(* the tree at HEAD publishes before the database commit *)
-Definition tree_fixed : bool := false.
+(* /repo 953436b (fix: a failed commit must not publish the transaction's in-memory state) moved every
+   publication behind the database commit; `steps_head` is the order BEFORE that commit *)
+Definition tree_fixed : bool := true.
 Definition steps_tree : list cstep := if tree_fixed then steps_fixed else steps_head.
 Definition agree (c : case) : bool := agree_with steps_tree c.
 
@@ -322,8 +325,8 @@ Definition pcheck (c : case) : bool :=
       else cells_eqb mem before && cells_eqb re before
   end.
 
-(* recorded finding class `publish-before-commit`: a storage fault after a publication that
-   changed a setting (only while the tree is unfixed) *)
+(* no known class on the fixed tree; on the pre-fix tree the class was `exposed`: a storage fault
+   after a publication that changed a setting *)
 Definition known (c : case) : bool :=
   match c with
   | CTxn before ops None true _ ctrace 1 _ _ =>
